@@ -437,6 +437,22 @@ def process_group(args):
             if not vf:
                 res['undecided'] = '%s: ensures(false) was discharged: the requires clause is contradictory' % g['name']
                 return res
+        # plain-assertion groups (no enforced contract): the end of the harness must be reachable
+        if not enforce and not failed and not g.get('skip_vacuity'):
+            g2 = dict(g)
+            g2['defines'] = dict(g.get('defines', {}), VF_VACUITY_PROBE=1)
+            g2['name'] = g['name'] + '.probe'
+            cf2, _, _ = build_group_c(g2, L0, allc, scratch)
+            rv = cbmc_group(g2, cf2, scratch, '', trace=False)
+            if rv['status'] in ('timeout', 'error'):
+                res['undecided'] = '%s: reachability probe %s' % (g['name'], rv['status'])
+                return res
+            hit = [x for x in rv['results'] if x['status'] == 'FAILURE' and 'VF_VACUITY probe' in x['description']]
+            res['vacuity'] = 'reachable' if hit else 'VACUOUS'
+            res['wall'] += rv.get('wall', 0)
+            if not hit:
+                res['undecided'] = '%s: the end of the harness is unreachable (assumptions contradictory) or has no VF_REACHED()' % g['name']
+                return res
         # a failure under the uninterpreted-division abstraction may be spurious: search for a
         # bit-precise counterexample of the same obligations before replaying
         if failed and g.get('uf_fdiv') and not g.get('no_refine'):
